@@ -29,6 +29,36 @@ def exhaustive(ctx, length, with_lookups=False, name="exh"):
     return e, bad
 
 
+def exhaustive_locate(ctx, e, g, length, with_lookups):
+    """the first history of group g on which the implementation's observations differ from the Python reading of
+    the SPEC (same digest function as Corr.hist_digest), with both observations"""
+    import itertools, store_oracle as so
+    rows = sc.hstore(["-mode", "exhaustive", "-len", length, "-group", g] + (["-c02"] if with_lookups else []), timeout=3000)
+    per = rows[0]["history_digests"]
+    al = e["alphabet"]
+    base = {"universe": e["universe"], "pools": e["pools"], "names": e["names"]}
+    for i, rest in enumerate(itertools.product(al, repeat=length - 1)):
+        ops = [al[g]] + list(rest)
+        sp = so.Spec(dict(base, steps=[]))
+        allq = sp.all_queries() if with_lookups else None
+        h = 0
+        for o in ops:
+            ob = sp.observe(sp.step(o))
+            h = so.dmix(h, ob["res"])
+            h = so.dlist(h, ob["names"])
+            h = so.dlist(so.dmix(h, 77), ob["gets"])
+            for mask, ranks in ob["graphs"]:
+                h = so.dlist(so.dmix(so.dmix(h, 78), mask), ranks)
+            if with_lookups:
+                h = so.dmix(h, sp.digest_state(allq, [so.DEFAULT_LO]))
+        if i >= len(per) or per[i] != h:
+            r = sc.run_case(ctx, dict(base, ops=ops, c09={}), with_lookups, False)
+            sp = so.Spec(dict(base, steps=[]))
+            spec_obs = [sp.observe(sp.step(o)) for o in ops]
+            return {"operations": ops, "implementation": [s["obs"] for s in r["steps"]], "spec": spec_obs}
+    return None
+
+
 def run(ctx):
     ctx.add_obligations(vcheck.coq_props("Store", "C01"))
     ctx.cov["checker_cmd"] = ("coqc -Q coq/Store BWStore coq/Store/Props/C01.v; work/bin/h_store -mode hist | "
@@ -62,9 +92,14 @@ def run(ctx):
                              "universe": e["strs"], "steps_observed": e["histories"] * length}
     ctx.cov["evaluations"] += e["histories"] * length
     for g in ebad[:3]:
-        ctx.violation({"kind": "exhaustive-history-digest", "first_operation": e["alphabet"][g], "length": length,
-                       "explain": "the digest of all observations along every history starting with this operation differs "
-                                  "between model and implementation", "universe": e["strs"], "alphabet": e["alphabet"]})
+        v = {"kind": "exhaustive-history-digest", "first_operation": e["alphabet"][g], "length": length,
+             "explain": "the digest of all observations along every history starting with this operation differs "
+                        "between model and implementation", "universe": e["strs"], "alphabet": e["alphabet"]}
+        try:
+            v["failing_history"] = exhaustive_locate(ctx, e, g, length, False)
+        except Exception as ex:
+            v["failing_history"] = "search failed: %s" % ex
+        ctx.violation(v)
     ctx.assumptions += ["triple identity is compared on keys (UUID pre-images); key <-> UUID faithfulness is asserted by the "
                         "harness on each generated universe (C06 owns UUID collisions)"]
 
